@@ -186,6 +186,7 @@ func runC40(c *Ctx) {
 	}()
 	c.Bubble(func() {
 		s := simrt.New(c.T)
+		s.EnableHB()
 		s.KeepTrace = c.Knobs["trace"] != ""
 		simrt.PipeCap.Store(int64(cs.PipeCap))
 		var ci cancelInfo
@@ -250,5 +251,8 @@ func runC40(c *Ctx) {
 			v.Detail = "all evaluations returned but goroutines they started never finish: " + v.Detail
 		}
 		c.FinishSim(s, v)
+		if v == nil {
+			c.ReportRaces(s)
+		}
 	})
 }
